@@ -169,13 +169,59 @@ func rawOf(path string, params []qParam) string {
 	return raw
 }
 
+// c08OtherSchema: the canonical form depends on the schema given to THIS parse only. A second
+// schema declares the same type names with as many attributes under other names (another
+// service, or the same schema after RemoveAttr + AddAttr); URLs that leave sort / fields to
+// their defaults are parsed against the two alternately.
+func c08OtherSchema(x *mc.Exec) {
+	soft := x.Bool("soft")
+	a := urlSchema(soft)
+	var tds []TypeD
+	for _, d := range urlTypes {
+		nd := TypeD{Name: d.Name, Rels: d.Rels}
+		for _, at := range d.Attrs {
+			nd.Attrs = append(nd.Attrs, AttrD{"o" + at.Name, at.K})
+		}
+		tds = append(tds, nd)
+	}
+	flags := make([]bool, len(tds))
+	for i := range flags {
+		flags[i] = soft
+	}
+	b := BuildSchema(tds, flags)
+	raws := []string{"/a", "/b", "/one", "/cs", "/a?page%5Bsize%5D=2", "/a/1/rr", "/a?include=r", "/c/1/t", "/none", "/a?filter=lbl"}
+	raw := raws[x.Choose(len(raws), "url")]
+	order := [][]*j.Schema{{a, b}, {b, a}, {a, b, a}}[x.Choose(3, "order")]
+	x.Render(raw)
+	x.R.Mark("nontrivial", mc.Hash(raw, x.Choices()))
+	for i, sc := range order {
+		u, err, pmsg, _ := ParseURL(x, sc, raw, false)
+		if pmsg != "" || err != nil || u == nil {
+			x.Fail("C08:other-schema:rejected", "parse %d of %q: panic %q error %v", i+1, raw, pmsg, err)
+			return
+		}
+		// the defaults are the given schema's attributes
+		st := sc.GetType(u.ResType)
+		for _, r := range u.Params.SortingRules {
+			n := strings.TrimPrefix(r, "-")
+			if _, ok := st.Attrs[n]; !ok && n != "id" {
+				x.Fail("C08:other-schema:foreign-sorting-rule", "parse %d of %q: sorting rule %q is not an attribute of type %q in the schema given to this parse (attributes %v)", i+1, raw, r, st.Name, SortedKeys(st.Attrs))
+				return
+			}
+		}
+		if _, ok := c08Fixpoint(x, sc, raw, u); !ok {
+			return
+		}
+	}
+}
+
 // the C07 space: fixpoint + permutation invariance
 func c08Space(x *mc.Exec) {
 	max := 2
 	if Thorough() {
 		max = 3
 	}
-	// thorough: a third parameter from the reduced menu (two instances per parameter name)
+	// thorough: on four paths a third parameter from the reduced menu (one instance per parameter name)
 	raw, params, path := GenURLReduced(x, max, 2)
 	soft := len(x.Choices())%2 == 0
 	schema := urlSchema(soft)
@@ -347,12 +393,13 @@ func c08Trees(x *mc.Exec) {
 func init() {
 	Register(&Prop{
 		ID: "C08",
-		Rule: "Engine A, all choices Full: every URL of the C07 query space (17 paths x ordered sequences of 0..2 parameters, thorough: plus a third one out of two instances per parameter name, from the ~120-instance menu incl. and/or operators in other letter cases and a type whose field names differ by case only) that the parser accepts; ids, page values, page keys, filter labels and filter strings containing each of 12 reserved-character samples (space & ? # % + / = , non-ASCII) at 6 positions; every and/or filter tree of depth <= 2 (thorough 3) and fan-out <= 2 with and without a collation on each operator node. Oracle: String() parses, the re-parsed URL has the same fragments, type, id, relationship, field selection, sorting rules, page map (collection URLs), filter label / canonical filter JSON, and its String() is the same text; String() itself changes nothing read from the URL and is repeatable; every permutation of differently named parameters, reversal of fields/include lists and insertion of empty items yields the same String(). Non-trivial = accepted URL",
+		Rule: "Engine A, all choices Full: every URL of the C07 query space (17 paths x ordered sequences of 0..2 parameters, thorough: plus, on four representative paths, a third one out of one instance per parameter name, from the ~120-instance menu incl. and/or operators in other letter cases and a type whose field names differ by case only) that the parser accepts; ids, page values, page keys, filter labels and filter strings containing each of 12 reserved-character samples (space & ? # % + / = , non-ASCII) at 6 positions; every and/or filter tree of depth <= 2 (thorough 3) and fan-out <= 2 with and without a collation on each operator node. Oracle: String() parses, the re-parsed URL has the same fragments, type, id, relationship, field selection, sorting rules, page map (collection URLs), filter label / canonical filter JSON, and its String() is the same text; String() itself changes nothing read from the URL and is repeatable; every permutation of differently named parameters, reversal of fields/include lists and insertion of empty items yields the same String(). Non-trivial = accepted URL",
 		Assumptions: []string{"'page parameters' = the whole Page map of a collection URL"},
 		Harnesses: []Harness{
 			{Name: "C08/space", Body: c08Space, Dev: func() int { return 1 }},
 			{Name: "C08/reserved", Body: c08Reserved},
 			{Name: "C08/trees", Body: c08Trees},
+			{Name: "C08/other-schema", Body: c08OtherSchema},
 		},
 	})
 }
